@@ -230,10 +230,6 @@ func (s *CDX) dependencies(ctx context.Context, bom *sbom.Document) ([]cdx.Depen
 
 	for _, e := range bom.NodeList.Edges {
 		e := e
-		if _, ok := state.addedDict[e.From]; ok {
-			continue
-		}
-
 		if _, ok := state.componentsDict[e.From]; !ok {
 			logrus.Info("serialize")
 			return nil, fmt.Errorf("unable to find component %s", e.From)
@@ -244,6 +240,11 @@ func (s *CDX) dependencies(ctx context.Context, bom *sbom.Document) ([]cdx.Depen
 		// and it is something we can parameterize
 		switch e.Type {
 		case sbom.Edge_contains:
+			// Components already placed in the tree (and the root) keep
+			// their children at the top level
+			if _, ok := state.addedDict[e.From]; ok {
+				continue
+			}
 			// Make sure we have the target component
 			for _, targetID := range e.To {
 				// A component cannot be nested inside itself: the component
@@ -276,7 +277,6 @@ func (s *CDX) dependencies(ctx context.Context, bom *sbom.Document) ([]cdx.Depen
 					return nil, fmt.Errorf("unable to locate node %s", targetID)
 				}
 
-				state.addedDict[targetID] = struct{}{}
 				depListCheck[targetID] = struct{}{}
 				targetStrings = append(targetStrings, targetID)
 			}
